@@ -116,7 +116,57 @@ def setattr_raw(o, k, v):
     object.__setattr__(o, k, v)
 
 
-class SymLoop:
+class Merger:
+    """sub-path bookkeeping shared by generic loops and generic comprehensions: decisions that
+    depend on the generic element are explored exhaustively and their effects merged by ite"""
+
+    def _reset_sub(self, prefix):
+        self.sub_prefix = list(prefix)
+        self.sub_pos = 0
+        self.sub_pending = []
+        self.sub_pc = []
+
+    def sub_branch(self):
+        if self.sub_pos < len(self.sub_prefix):
+            d = self.sub_prefix[self.sub_pos]
+        else:
+            d = True
+            self.sub_pending.append(self.sub_prefix + [False])
+            self.sub_prefix.append(True)
+        self.sub_pos += 1
+        return d
+
+    def sub_choose(self, vals):
+        if self.sub_pos < len(self.sub_prefix):
+            k = self.sub_prefix[self.sub_pos]
+        else:
+            k = vals[0]
+            for v in vals[1:]:
+                self.sub_pending.append(self.sub_prefix + [v])
+            self.sub_prefix.append(k)
+        self.sub_pos += 1
+        return k
+
+    def note_store(self, arr, iz, vz, old):
+        raise Unsupported("array store inside a generic comprehension")
+
+
+def _ite_chain(items):
+    """items: [(cond z3 | None, value z3)] in exploration order; conditions are exhaustive"""
+    val = items[-1][1]
+    for cond, v in reversed(items[:-1]):
+        val = z3.If(cond, v, val)
+    return val
+
+
+def _and(cs):
+    cs = list(cs)
+    if not cs:
+        return z3.BoolVal(True)
+    return z3.And(*cs) if len(cs) > 1 else cs[0]
+
+
+class SymLoop(Merger):
     sym = True
 
     def __init__(self, lo, hi, elem, loop_id, tracked, stored):
@@ -125,16 +175,16 @@ class SymLoop:
         self.loop_id = loop_id
         self.tracked = tracked
         self.stored = stored
-        self.stores = []                # (array object, index z3, value z3)
+        self.stores = []                # (array object, index z3, value z3, old term)
         self.entered = None
         self.havoc = {}
-        self.result = None
         self.scope = None
         self.ran = False
+        self.sub_results = []
         self.it = self._gen()
 
-    def note_store(self, arr, iz, vz):
-        self.stores.append((arr, iz, vz))
+    def note_store(self, arr, iz, vz, old):
+        self.stores.append((arr, iz, vz, old))
 
     # ------------------------------------------------------------------
     def _gen(self):
@@ -148,11 +198,34 @@ class SymLoop:
             c.loop_stack = []
         c.loop_stack.append(self)
         self.ran = True
-        try:
+        work = [[]]
+        while work:
+            self._reset_sub(work.pop())
+            self.stores = []
+            self.left = False
+            mark = len(c.pc)
+            c.solver.push()
             yield self.elem(self.var)
-        except GeneratorExit:
-            raise
-        # body finished (leave() has been called by the rewritten code)
+            # body finished: leave() has classified the effects of this sub-path
+            if not self.left:
+                raise Unsupported("%s: generic iteration did not reach the end of the body" % self.loop_id)
+            self.sub_results.append((list(self.sub_pc), self.cur))
+            work.extend(self.sub_pending)
+            # undo the sub-path: path condition, arrays, lists
+            tail = c.pc[mark:]
+            del c.pc[mark:]
+            c.solver.pop()
+            for f in tail:
+                if not _mentions(f, [self.var]):
+                    c.pc.append(f)
+                    c.solver.add(f)
+            seen = set()
+            for (arr, iz, vz, old) in self.stores:
+                if id(arr) not in seen:
+                    seen.add(id(arr))
+                    arr.arr = old
+            for n, (lst, l0, blk) in self.cur["lists"].items():
+                del lst[l0:]
 
     def _close_scope(self):
         c = ctx()
@@ -166,29 +239,29 @@ class SymLoop:
         """havoc the numeric locals the body assigns; remember everything else"""
         c = ctx()
         cur = dict(zip(self.tracked, vals))
-        self.entered = cur
+        first = self.entered is None
+        if first:
+            self.entered = cur
         self.list_len = {}
-        self.arr_ver = {}
         out = []
         for n in self.tracked:
             v = cur[n]
             if isinstance(v, list) and not isinstance(v, GenList):
                 self.list_len[n] = len(v)
-            if isinstance(v, GenList):
-                self.list_len[n] = None
         for n in self.stored:
-            v = cur[n]
+            v = self.entered[n]
             if isinstance(v, (SReal, float)) or (isinstance(v, (SInt, int)) and not isinstance(v, bool)):
-                isint = isinstance(v, (SInt, int))
-                h = z3.Int(c.fresh("acc")) if isint else z3.Real(c.fresh("acc"))
-                self.havoc[n] = h
-                out.append(SInt(h) if isint else SReal(h))
+                if n not in self.havoc:
+                    isint = isinstance(v, (SInt, int))
+                    self.havoc[n] = z3.Int(c.fresh("acc")) if isint else z3.Real(c.fresh("acc"))
+                h = self.havoc[n]
+                out.append(SInt(h) if z3.is_int(h) else SReal(h))
             else:
                 out.append(v)
         return tuple(out) if len(out) != 1 else (out[0],)
 
     def leave(self, vals):
-        """end of the generic iteration: classify the effects"""
+        """end of one generic sub-path: classify the effects"""
         c = ctx()
         cur = dict(zip(self.tracked, vals))
         res = {}
@@ -204,14 +277,14 @@ class SymLoop:
                 hz = h if az.sort() == h.sort() else z3.ToReal(h)
                 delta = z3.simplify(az - hz, som=True)
                 if not _mentions(delta, [h]):
-                    res[n] = ("sum", delta, isint and z3.is_int(delta))
-                    continue
-                if z3.is_true(z3.simplify(az == hz)):
-                    res[n] = ("same",)
+                    if z3.is_true(z3.simplify(delta == 0)):
+                        res[n] = ("same",)
+                    else:
+                        res[n] = ("sum", delta)
                     continue
                 fac = z3.simplify(z3.substitute(az, (h, z3.IntVal(1) if z3.is_int(h) else z3.RealVal(1))))
                 if not _mentions(fac, [h]) and _valid(c, az == hz * fac):
-                    res[n] = ("prod", fac, isint and z3.is_int(fac))
+                    res[n] = ("prod", fac)
                     continue
                 raise Unsupported("%s: local %s is carried through the loop in a form that is "
                                   "neither a sum nor a product fold" % (self.loop_id, n))
@@ -223,34 +296,22 @@ class SymLoop:
                 else:
                     raise Unsupported("%s: object-valued local %s is reassigned in a generic "
                                       "iteration" % (self.loop_id, n))
-        # lists appended to
-        self.appended = {}
+        lists = {}
         for n, l0 in self.list_len.items():
             v = cur[n]
-            if l0 is None:
-                continue
             if isinstance(v, list) and len(v) != l0:
                 if len(v) < l0:
                     raise Unsupported("%s: list %s shrinks in the loop" % (self.loop_id, n))
-                self.appended[n] = (v, l0, v[l0:])
-        self.result = res
-        self._finish_arrays()
-
-    def _finish_arrays(self):
-        """R1: generalise stores A[i*] = v"""
-        c = ctx()
-        by_arr = {}
-        for (arr, iz, vz) in self.stores:
-            by_arr.setdefault(id(arr), (arr, []))[1].append((iz, vz))
-        self.arr_updates = []
-        for _, (arr, sts) in by_arr.items():
-            iz, vz = sts[-1]
-            for (i2, _) in sts:
-                if not z3.eq(z3.simplify(i2), z3.simplify(iz)):
-                    raise Unsupported("%s: several store indices to one array" % self.loop_id)
+                lists[n] = (v, l0, list(v[l0:]))
+        # arrays: stores A[i*] = v  (R1)
+        arrays = {}
+        for (arr, iz, vz, old) in self.stores:
             if not z3.eq(z3.simplify(iz), self.var):
                 raise Unsupported("%s: store index %s is not the generic index" % (self.loop_id, iz))
-            self.arr_updates.append((arr, vz))
+            ent = arrays.setdefault(id(arr), [arr, old, vz])
+            ent[2] = vz
+        self.cur = {"accs": res, "lists": lists, "arrays": arrays}
+        self.left = True
 
     # ------------------------------------------------------------------
     def on_break(self):
@@ -264,46 +325,83 @@ class SymLoop:
 
     # ------------------------------------------------------------------
     def exit(self, vals):
-        """after the loop: rebuild the values of the stored locals"""
+        """after the loop: merge the sub-paths and rebuild the values of the stored locals"""
         c = ctx()
         cur = dict(zip(self.tracked, vals))
         if not self.ran:
             out = [cur[n] for n in self.stored]
             return tuple(out) if len(out) != 1 else (out[0],)
         var, lo, hi = self.var, self.lo, self.hi
-        # arrays (R1): pre-loop array term = current term minus the generic store
-        for (arr, vz) in self.arr_updates:
-            base = arr.arr
-            # strip the generic stores
-            while z3.is_store(base) and z3.eq(z3.simplify(base.arg(1)), var):
-                base = base.arg(0)
-            if _mentions(base, [var]):
+        conds = [_and(pc) for pc, _ in self.sub_results]
+        effs = [e for _, e in self.sub_results]
+        # ---- arrays (R1)
+        arrs = {}
+        for e in effs:
+            for k, (arr, old, vz) in e["arrays"].items():
+                arrs.setdefault(k, (arr, old))
+        for k, (arr, old) in arrs.items():
+            if _mentions(old, [var]):
                 raise Unsupported("%s: array depends on the generic index" % self.loop_id)
+            items = []
+            for cond, e in zip(conds, effs):
+                if k in e["arrays"]:
+                    items.append((cond, e["arrays"][k][2]))
+                else:
+                    items.append((cond, z3.Select(old, var)))
+            merged = _ite_chain(items)
             j = z3.Int(c.fresh("j"))
-            body = z3.If(z3.And(j >= lo, j < hi), z3.substitute(vz, (var, j)), z3.Select(base, j))
+            body = z3.If(z3.And(j >= lo, j < hi), z3.substitute(merged, (var, j)), z3.Select(old, j))
             arr.arr = z3.Lambda([j], body)
+        # ---- lists (R2)
+        lnames = set()
+        for e in effs:
+            lnames |= set(e["lists"])
+        list_blocks = {}
+        for n in lnames:
+            if not all(n in e["lists"] for e in effs):
+                raise Unsupported("%s: list %s is appended to on some branches only" % (self.loop_id, n))
+            m = {len(e["lists"][n][2]) for e in effs}
+            if len(m) != 1:
+                raise Unsupported("%s: list %s grows by different amounts" % (self.loop_id, n))
+            m = m.pop()
+            lst, l0 = effs[0]["lists"][n][0], effs[0]["lists"][n][1]
+            blk = []
+            for u in range(m):
+                elems = [e["lists"][n][2][u] for e in effs]
+                blk.append(_merge_values(conds, elems, self.loop_id))
+            list_blocks[n] = (lst, l0, blk)
         self._close_scope()
         out = []
         for n in self.stored:
-            r = self.result[n]
+            kinds = [e["accs"][n] for e in effs]
             init = self.entered[n]
-            if r[0] == "same":
+            ks = {k[0] for k in kinds}
+            if ks <= {"same"}:
                 out.append(init)
-            elif r[0] == "temp":
+            elif ks <= {"temp"}:
                 out.append(UNBOUND_AFTER)
-            elif r[0] in ("sum", "prod"):
-                term, isint = r[1], r[2]
-                g = fold_fn(c, r[0], var, term, self.loop_id)
+            elif ks <= {"sum", "same"} or ks <= {"prod", "same"}:
+                kind = "sum" if "sum" in ks else "prod"
+                h = self.havoc[n]
+                isint = z3.is_int(h)
+                unit = (z3.IntVal(0) if isint else z3.RealVal(0)) if kind == "sum" else \
+                       (z3.IntVal(1) if isint else z3.RealVal(1))
+                terms = []
+                for cond, k in zip(conds, kinds):
+                    t = k[1] if k[0] == kind else unit
+                    terms.append((cond, t))
+                if not isint:
+                    terms = [(cd, z3.ToReal(t) if z3.is_int(t) else t) for cd, t in terms]
+                term = z3.simplify(_ite_chain(terms))
+                g = fold_fn(c, kind, var, term, self.loop_id)
                 total = g(lo, hi)
-                if r[0] == "sum":
-                    z = (zint(init) if isint and isinstance(init, (SInt, int)) else zreal(init)) + \
-                        (total if (isint and isinstance(init, (SInt, int))) or not z3.is_int(total) else z3.ToReal(total))
-                else:
-                    z = (zint(init) if isint and isinstance(init, (SInt, int)) else zreal(init)) * \
-                        (total if (isint and isinstance(init, (SInt, int))) or not z3.is_int(total) else z3.ToReal(total))
+                iz = zint(init) if isint else zreal(init)
+                z = iz + total if kind == "sum" else iz * total
                 out.append(SInt(z) if z3.is_int(z) else SReal(z))
-        # lists (R2): the list object is mutated in place into a GenList
-        for n, (lst, l0, blk) in self.appended.items():
+            else:
+                raise Unsupported("%s: local %s is updated differently on different branches (%s)"
+                                  % (self.loop_id, n, sorted(ks)))
+        for n, (lst, l0, blk) in list_blocks.items():
             if type(lst) is not list:
                 raise Unsupported("%s: append to a %s in a generic iteration" % (self.loop_id, type(lst).__name__))
             prefix = list(lst[:l0])
@@ -311,6 +409,17 @@ class SymLoop:
             lst.__class__ = GenList
             GenList.__init__(lst, prefix, lo, hi, var, blk)
         return tuple(out) if len(out) != 1 else (out[0],)
+
+
+def _merge_values(conds, vals, where):
+    if len(vals) == 1:
+        return vals[0]
+    if all(isinstance(v, (SInt, int)) and not isinstance(v, bool) for v in vals):
+        return SInt(_ite_chain([(cd, zint(v)) for cd, v in zip(conds, vals)]))
+    if all(_num(v) for v in vals):
+        return SReal(_ite_chain([(cd, zreal(v)) for cd, v in zip(conds, vals)]))
+    from .merge import merge_objects
+    return merge_objects(conds, vals, where)
 
 
 UNBOUND_AFTER = UNBOUND
@@ -396,7 +505,7 @@ def vc_loop(iterable, loop_id, tracked, stored):
         return SymLoop(iterable.lo, iterable.hi, lambda v: SInt(v), loop_id, tracked, stored)
     if isinstance(iterable, SymArr):
         a = iterable
-        return SymLoop(z3.IntVal(0), a.n, lambda v: a.wrap(z3.Select(a.arr, v)), loop_id, tracked, stored)
+        return SymLoop(z3.IntVal(0), a.n, lambda v: a[SInt(v)], loop_id, tracked, stored)
     if isinstance(iterable, ReshapedSlice):
         n = iterable.length()
         if isinstance(n, SInt) or isinstance(iterable.rs.base, SymArr):
@@ -411,8 +520,15 @@ def vc_loop(iterable, loop_id, tracked, stored):
     return _Concrete(iterable)
 
 
+class _CompMerger(Merger):
+    def __init__(self):
+        self.sub_results = []
+
+
 def vc_comp(fn, iterable):
     """list comprehension [fn(v) for v in iterable]"""
+    if isinstance(iterable, GenList):
+        raise Unsupported("comprehension over a generically built list")
     if isinstance(iterable, (SymRange, SymArr)) or \
             (isinstance(iterable, ReshapedSlice) and (isinstance(iterable.length(), SInt)
                                                       or isinstance(iterable.rs.base, SymArr))):
@@ -422,7 +538,7 @@ def vc_comp(fn, iterable):
             elem = lambda v: SInt(v)
         elif isinstance(iterable, SymArr):
             lo, hi = z3.IntVal(0), iterable.n
-            elem = lambda v: iterable.wrap(z3.Select(iterable.arr, v))
+            elem = lambda v: iterable[SInt(v)]
         else:
             lo, hi = z3.IntVal(0), zint(iterable.length())
             elem = (lambda v: iterable.at(SInt(v))) if iterable.rank() == 1 else (lambda v: iterable[SInt(v)])
@@ -430,8 +546,31 @@ def vc_comp(fn, iterable):
         if not c.branch(hi > lo):
             return SymList(SymArr(z3.IntVal(0), z3.K(z3.IntSort(), z3.RealVal(0)), "real"))
         var = z3.Int(c.fresh("i*"))
+        mg = _CompMerger()
+        if not hasattr(c, "loop_stack"):
+            c.loop_stack = []
+        results = []
         with c.generic_scope(var, z3.And(var >= lo, var < hi)):
-            e = fn(elem(var))
+            c.loop_stack.append(mg)
+            try:
+                work = [[]]
+                while work:
+                    mg._reset_sub(work.pop())
+                    mark = len(c.pc)
+                    c.solver.push()
+                    e = fn(elem(var))
+                    results.append((_and(mg.sub_pc), e))
+                    work.extend(mg.sub_pending)
+                    tail = c.pc[mark:]
+                    del c.pc[mark:]
+                    c.solver.pop()
+                    for f in tail:
+                        if not _mentions(f, [var]):
+                            c.pc.append(f)
+                            c.solver.add(f)
+            finally:
+                c.loop_stack.pop()
+        e = _merge_values([cd for cd, _ in results], [v for _, v in results], "comprehension")
         if isinstance(e, (SReal, float)) or (isinstance(e, (SInt, int)) and not isinstance(e, bool)):
             isint = isinstance(e, (SInt, int))
             ez = zint(e) if isint else zreal(e)
